@@ -17,8 +17,10 @@ import (
 	"github.com/wrgl/wrgl/pkg/conf"
 	"github.com/wrgl/wrgl/pkg/doctor"
 	"github.com/wrgl/wrgl/pkg/encoding/packfile"
+	"github.com/wrgl/wrgl/pkg/ingest"
 	"github.com/wrgl/wrgl/pkg/objects"
 	"github.com/wrgl/wrgl/pkg/prune"
+	"github.com/wrgl/wrgl/pkg/sorter"
 )
 
 type C03Plan struct {
@@ -36,6 +38,8 @@ type C03Plan struct {
 	Rekey    string    `json:"rekey,omitempty"`    // ingest: the same rows were committed before under another key with the same row order: "widen" (id -> id,c1), "keyless" (id -> no key), "narrow" (id,c1 -> id)
 	Retain   bool      `json:"retain,omitempty"`   // the store keeps the slices handed to Set (a transactional store with pending writes) instead of copying them
 	Retry    bool      `json:"retry,omitempty"`    // receive: a first receipt dies when the table object is written, prune runs, the transfer is repeated
+	Reingest string    `json:"reingest,omitempty"` // doctor: repair through ingest.ReingestTable instead of doctor.Resolve: "index" (duplicates looked for in the block indices) | "blocks" (in the rows)
+	ReadSeed uint64    `json:"read_seed,omitempty"` // positions read back through diff.TableReader / diff.RowListReader
 	DupEdge  bool      `json:"dup_edge,omitempty"` // ingest: the input repeats the lines whose keys end / start a block (positions 254, 255, 509, 510 in key order)
 }
 
@@ -60,6 +64,11 @@ func init() {
 			}
 			p.Retry = r.Chance(0.3)
 			p.Retain = r.Chance(0.2)
+			if rr := r.Sub("reingest"); rr.Chance(0.4) {
+				// sub-streams: the plans of earlier versions stay what they were
+				p.Reingest = Pick(rr, []string{"index", "blocks"})
+			}
+			p.ReadSeed = r.Sub("readers").Uint64()
 			if r.Chance(0.4) {
 				p.NCols = max(p.NCols, r.Range(2, 5))
 				p.KeyCols = r.Perm(p.NCols)[:r.Range(2, min(4, p.NCols))]
@@ -400,6 +409,73 @@ func execC03(t *testing.T, raw json.RawMessage, res *Result) {
 		c.WriteTo(&cb)
 		csum, _ := objects.SaveCommit(st, cb.Bytes())
 		rs.Set("heads/main", csum)
+		if p.Reingest != "" {
+			if p.Reingest != "index" && p.Reingest != "blocks" {
+				res.Invalid("reingest")
+				return
+			}
+			// the library entry point of the same repair: duplicates are looked for in the block indices
+			// or in the rows; a table it hands back must be the sound, de-duplicated one
+			badTbl, err := objects.GetTable(st, badSum)
+			if err != nil {
+				res.Invalid("%v", err)
+				return
+			}
+			goodTbl, err := objects.GetTable(st, good)
+			if err != nil {
+				res.Invalid("%v", err)
+				return
+			}
+			var rerr, gerr error
+			var gsum []byte
+			st.Retain = p.Retain
+			bo := Bubble(t, 0, func(mainDone *bool) {
+				defer func() { *mainDone = true }()
+				srt, err := sorter.NewSorter(sorter.WithRunSize(p.Cfg.RunSize))
+				if err != nil {
+					rerr = err
+					return
+				}
+				defer srt.Close()
+				gsum, gerr = ingest.ReingestTable(st, srt, goodTbl, p.Reingest == "index", logr.Discard())
+				sum, rerr = ingest.ReingestTable(st, srt, badTbl, p.Reingest == "index", logr.Discard(), ingest.WithNumWorkers(max(1, p.Cfg.Workers)))
+			})
+			if bubbleProblems(res, bo, "reingest") {
+				return
+			}
+			if rerr != nil || gerr != nil {
+				res.Violate("reingest-error", "ReingestTable failed: %v / %v", rerr, gerr)
+				return
+			}
+			if gsum != nil {
+				if c, d := CheckTable(st, gsum); c != "" {
+					res.Violate("reingest-"+c, "ReingestTable over a sound table of %d rows returned a defective table: %s", len(sorted), d)
+					return
+				}
+				if _, got, err := ReadTableRaw(st, gsum); err != nil || !sameRows(got, sorted) {
+					res.Violate("reingest-rows-wrong", "ReingestTable over a sound table of %d rows returned another table (%d rows, err %v)", len(sorted), len(got), err)
+					return
+				}
+				res.probe("reingest_of_sound_table", 1)
+			}
+			if sum == nil {
+				// the search did not see the planted duplicate (block-index search across a block edge):
+				// no table was produced, nothing to judge
+				res.probe("reingest_duplicate_not_seen", 1)
+				res.Skip("ReingestTable did not re-ingest")
+				return
+			}
+			if bytes.Equal(sum, badSum) {
+				res.Violate("doctor-not-repaired", "ReingestTable returned the defective table")
+				return
+			}
+			if _, got, err := ReadTableRaw(st, sum); err != nil || !sameRows(got, sorted) {
+				res.Violate("doctor-rows-wrong", "ReingestTable: repaired table has %d rows (err %v), the de-duplicated table has %d, or rows differ", len(got), err, len(sorted))
+				return
+			}
+			res.probe("reingest_"+p.Reingest, 1)
+			break
+		}
 		var derr error
 		var newHead []byte
 		st.Retain = p.Retain
@@ -461,6 +537,13 @@ func execC03(t *testing.T, raw json.RawMessage, res *Result) {
 	if c, d := CheckTable(checkStore, sum); c != "" {
 		res.Violate(p.Producer+"-"+c, "%s table (%d rows): %s", p.Producer, len(rows), d)
 		return
+	}
+	if !p.Huge {
+		if c, d := CheckRowReaders(checkStore, sum, NewRand(p.ReadSeed)); c != "" {
+			res.Violate(p.Producer+"-"+c, "%s table (%d rows): %s", p.Producer, len(rows), d)
+			return
+		}
+		res.probe("row_readers", 1)
 	}
 	issue, err := diagnoseAll(checkStore, sum)
 	if err != nil {
